@@ -13,8 +13,8 @@ EXTENDS Universe, Json, IOUtils
 
 CONSTANTS MaxComps, Rich
 
-VARIABLES kind, comps, tagging, fault, phase, l
-lvars == <<kind, comps, tagging, fault, phase, l>>
+VARIABLES kind, comps, tagging, fault, phase, l, extAt
+lvars == <<kind, comps, tagging, fault, phase, l, extAt>>
 
 ChoiceIB == TRef("CIB")           \* CHOICE { INTEGER, BOOLEAN }  (untagged: transparent)
 ChoiceTT == TRef("CTT")           \* CHOICE { [0] INTEGER, [1] BOOLEAN }
@@ -23,9 +23,10 @@ Palette ==
   \cup (IF Rich THEN {TTag("C", 1, "D", TBool), ChoiceTT, TTag("A", 1, "D", Int0), TRef("RI"), TTag("C", 1, "I", TNull),
                       TTag("C", 0, "E", ChoiceIB), TStr("IA5", CNone, <<>>)} ELSE {})
 Flags == {"M", "O"}
-Faults == {"none", "dup-ident", "dup-enum-name", "dup-enum-value", "dangling-ref"}
+Faults == {"none", "dup-ident", "dup-ident-last", "dup-enum-name", "dup-enum-value", "dup-enum-name-ext", "dup-enum-value-ext", "dangling-ref"}
 
-Init == kind \in {"CHOICE", "SET", "SEQUENCE"} /\ comps = <<>> /\ tagging = "" /\ fault = "none" /\ phase = "build" /\ l = 0
+\* extAt = k > 0: an extension marker follows the k-th component (SEQUENCE only; the later components are extension additions)
+Init == kind \in {"CHOICE", "SET", "SEQUENCE"} /\ comps = <<>> /\ tagging = "" /\ fault = "none" /\ phase = "build" /\ l = 0 /\ extAt = 0
 \* DEFAULT is offered for the SEQUENCE components whose type has an obvious default value
 DefaultOf(t) == LET r == IF t.k = "TAGGED" THEN t.t ELSE t IN
                 CASE r.k = "INTEGER" -> <<IOfInt(0)>> [] r.k = "BOOLEAN" -> <<TRUE>> [] OTHER -> <<>>
@@ -35,32 +36,38 @@ AddComponent == /\ phase = "build" /\ Len(comps) < MaxComps
                           comps' = Append(comps, Comp("c" \o ToString(Len(comps) + 1), t, o))
                      \/ /\ kind = "SEQUENCE" /\ DefaultOf(t) # <<>>
                         /\ comps' = Append(comps, CompD("c" \o ToString(Len(comps) + 1), t, DefaultOf(t)[1]))
-                /\ UNCHANGED <<kind, tagging, fault, phase, l>>
+                /\ UNCHANGED <<kind, tagging, fault, phase, l, extAt>>
 SetTagging == /\ phase = "build" /\ Len(comps) >= 2
               /\ tagging' \in {"EXPLICIT", "IMPLICIT", "AUTOMATIC"} /\ phase' = "tagged"
+              /\ extAt' \in (IF kind = "SEQUENCE" THEN {0, 1} ELSE {0})
               /\ UNCHANGED <<kind, comps, fault, l>>
 \* (quick tier: the fault catalogue is applied to the two-component modules only)
-InjectFault == /\ phase = "tagged" /\ fault' \in (IF Rich \/ Len(comps) = 2 THEN Faults ELSE {"none"}) /\ phase' = "done"
-               /\ UNCHANGED <<kind, comps, tagging, l>>
+InjectFault == /\ phase = "tagged" /\ fault' \in (IF Rich \/ Len(comps) = 2 THEN Faults ELSE IF extAt # 0 THEN {"none", "dup-ident-last"} ELSE {"none"}) /\ phase' = "done"
+               /\ UNCHANGED <<kind, comps, tagging, l, extAt>>
 Next == AddComponent \/ SetTagging \/ InjectFault
 
 \* the module a finished state denotes
 Faulty(cs) == CASE fault = "dup-ident" -> [cs EXCEPT ![2] = [cs[2] EXCEPT !.n = cs[1].n]]
+                [] fault = "dup-ident-last" -> [cs EXCEPT ![Len(cs)] = [cs[Len(cs)] EXCEPT !.n = cs[Len(cs) - 1].n]]
                 [] fault = "dangling-ref" -> [cs EXCEPT ![Len(cs)] = Comp(cs[Len(cs)].n, TRef("Nowhere"), "M")]
                 [] OTHER -> cs
 EnumDef == CASE fault = "dup-enum-name" -> TEnum(<<EItem("a", 0), EItem("b", 1), EItem("a", 2)>>, FALSE, <<>>)
              [] fault = "dup-enum-value" -> TEnum(<<EItem("a", 0), EItem("b", 1), EItem("c", 1)>>, FALSE, <<>>)
+             [] fault = "dup-enum-name-ext" -> TEnum(<<EItem("a", 0), EItem("b", 1)>>, TRUE, <<EItem("c", 2), EItem("c", 3)>>)
+             [] fault = "dup-enum-value-ext" -> TEnum(<<EItem("a", 0), EItem("b", 1)>>, TRUE, <<EItem("c", 5), EItem("d", 5)>>)
              [] OTHER -> TEnum(<<EItem("a", 0), EItem("b", 1)>>, FALSE, <<>>)
 TheModule ==
   [name |-> "LG", tagging |-> tagging,
    \* TOP comes first: the types it refers to are defined after it
-   defs |-> << [n |-> "TOP", t |-> [k |-> kind, comps |-> Faulty(comps), ext |-> FALSE, adds |-> <<>>]],
+   defs |-> << [n |-> "TOP", t |-> IF extAt = 0 THEN [k |-> kind, comps |-> Faulty(comps), ext |-> FALSE, adds |-> <<>>]
+                                   ELSE [k |-> kind, comps |-> SubSeq(Faulty(comps), 1, extAt), ext |-> TRUE,
+                                         adds |-> SubSeq(Faulty(comps), extAt + 1, Len(comps))]],
                [n |-> "CIB", t |-> TChoice(<<Comp("i", Int0, "M"), Comp("b", TBool, "M")>>, FALSE, <<>>)],
                [n |-> "CTT", t |-> TChoice(<<Comp("i", TTag("C", 0, "D", Int0), "M"), Comp("b", TTag("C", 1, "D", TBool), "M")>>, FALSE, <<>>)],
                [n |-> "RI", t |-> Int0],
                [n |-> "EN", t |-> EnumDef] >>]
 \* AUTOMATIC tagging makes CIB / CTT themselves automatically tagged (CIB gets [0],[1]; CTT is tagged already)
-Export == phase = "done" => PrintT(<<"SCN", ToJson([mod |-> TheModule, fault |-> fault, legal |-> Legal(TheModule)])>>)
+Export == phase = "done" => PrintT(<<"SCN", ToJson([mod |-> TheModule, fault |-> fault, legal |-> Legal(TheModule), legal_split |-> LegalSplit(TheModule)])>>)
 \* both verdicts must occur (vacuity guard, checked by the glue on the exported set)
 
 \* ---- judge ------------------------------------------------------------------------
@@ -75,11 +82,11 @@ LFaults(sc, ev) ==
   \cup When(ev.signal = 0 /\ ~legal /\ ev.exit = 0, "illegal-module-accepted")
   \cup When(ev.signal = 0 /\ ev.exit # 0 /\ ~ev.diag, "rejected-without-diagnostic")
   \cup When(ev.signal = 0 /\ ev.exit # 0 /\ ev.files > 0, "rejected-but-wrote-code")
-TInit == l = 1 /\ kind = "" /\ comps = <<>> /\ tagging = "" /\ fault = "none" /\ phase = "trace"
+TInit == l = 1 /\ kind = "" /\ comps = <<>> /\ tagging = "" /\ fault = "none" /\ phase = "trace" /\ extAt = 0
 TStep == /\ l <= Len(Log)
          /\ LET f == LFaults(Scn[Ev.id], Ev) IN
               f # {} => PrintT(<<"MISMATCH", ToJson([id |-> Ev.id, i |-> 1, l |-> l, reasons |-> SetSeq(f)])>>)
-         /\ l' = l + 1 /\ UNCHANGED <<kind, comps, tagging, fault, phase>>
+         /\ l' = l + 1 /\ UNCHANGED <<kind, comps, tagging, fault, phase, extAt>>
 TNext == TStep
 TraceAccepted == TLCGet("stats").diameter - 1 = Len(Log)
 =============================================================================
